@@ -16,9 +16,6 @@ import AtreeProofs.Props.TransSlabsData
 namespace Atree.TransEq
 open Atree Atree.Gen
 
-/-- a model handle as the generated handle over a storage -/
-def trArr (a : Arr) (s : HSt) : HArray := { Storage := s, root := some (trTree a.d a.root) }
-
 /-- a leaf `(1,id)` of elements with the given sizes (payloads `base, base+1, ..`) -/
 def exLeaf (id next base : Nat) (sizes : List Nat) : DataSlab :=
   { hdr := ⟨⟨1, id⟩, 21 + sizes.sum, sizes.length⟩, next := ⟨1, next⟩,
@@ -64,82 +61,82 @@ def exp2 (m : Except AErr (Arr × Ctx)) :=
 
 /-! ### Get -/
 
-example : obs3 (TransSl.Array_Get (envH 256) 1 (trArr exA (exSt exA)) 5) =
+example : obs3 (TransSl.Array_Get (envH 256) 1 (trArrH exA (exSt exA)) 5) =
     some (some ⟨60, .val 11⟩, none, some (trTree 1 exA.root), ⟨5, [], []⟩, exIds.map (heapOf 1 exA.root)) := by rfl
 example : exA.get 5 = .ok ⟨60, .val 11⟩ := by rfl
 /-- out of range: `IndexOutOfBoundsError`, nothing touched -/
-example : obs3 (TransSl.Array_Get (envH 256) 1 (trArr exA (exSt exA)) 8) =
+example : obs3 (TransSl.Array_Get (envH 256) 1 (trArrH exA (exSt exA)) 8) =
     some (none, some .indexOutOfBounds, some (trTree 1 exA.root), ⟨5, [], []⟩, exIds.map (heapOf 1 exA.root)) := by rfl
 /-- the depth argument does not cover the tree: the generated code gives up -/
-example : TransSl.Array_Get (envH 256) 0 (trArr exA (exSt exA)) 5 = none := by rfl
+example : TransSl.Array_Get (envH 256) 0 (trArrH exA (exSt exA)) 5 = none := by rfl
 
 /-! ### set -/
 
 /-- plain store: the leaf and the root are stored -/
 theorem Sl_Array_set_heap_ex_store :
-    obs3 (TransSl.Array_set (envH 256) 1 (trArr exA (exSt exA)) 5 (some ⟨70, .val 99⟩)) =
+    obs3 (TransSl.Array_set (envH 256) 1 (trArrH exA (exSt exA)) 5 (some ⟨70, .val 99⟩)) =
       exp3 (exA.set 256 5 ⟨70, .val 99⟩ (exSt exA).ctx) := by rfl
 example : (exA.set 256 5 ⟨70, .val 99⟩ (exSt exA).ctx).toOption.map (fun r => (r.1, r.2.2.eff)) =
     some (⟨60, .val 11⟩, [.store ⟨1, 3⟩, .store ⟨1, 1⟩]) := by rfl
 /-- the leaf becomes full: `SplitChildSlab` (a new slab `(1,6)`) -/
 theorem Sl_Array_set_heap_ex_split :
-    obs3 (TransSl.Array_set (envH 256) 1 (trArr exB (exSt exB)) 3 (some ⟨110, .val 99⟩)) =
+    obs3 (TransSl.Array_set (envH 256) 1 (trArrH exB (exSt exB)) 3 (some ⟨110, .val 99⟩)) =
       exp3 (exB.set 256 3 ⟨110, .val 99⟩ (exSt exB).ctx) := by rfl
 example : (exB.set 256 3 ⟨110, .val 99⟩ (exSt exB).ctx).toOption.map (fun r => (r.2.1.d, r.2.2.eff)) =
     some (1, [.store ⟨1, 2⟩, .alloc 1 ⟨1, 6⟩, .store ⟨1, 2⟩, .store ⟨1, 6⟩, .store ⟨1, 1⟩]) := by rfl
 /-- the leaf underflows, its sibling cannot lend: merge, the root is left with one child: `promoteChildAsNewRoot` -/
 theorem Sl_Array_set_heap_ex_merge_promote :
-    obs3 (TransSl.Array_set (envH 256) 1 (trArr exC (exSt exC)) 0 (some ⟨1, .val 99⟩)) =
+    obs3 (TransSl.Array_set (envH 256) 1 (trArrH exC (exSt exC)) 0 (some ⟨1, .val 99⟩)) =
       exp3 (exC.set 256 0 ⟨1, .val 99⟩ (exSt exC).ctx) := by rfl
 example : (exC.set 256 0 ⟨1, .val 99⟩ (exSt exC).ctx).toOption.map (fun r => (r.2.1.d, r.2.2.eff)) =
     some (0, [.store ⟨1, 2⟩, .store ⟨1, 2⟩, .store ⟨1, 1⟩, .remove ⟨1, 3⟩, .store ⟨1, 1⟩, .remove ⟨1, 2⟩]) := by rfl
 /-- a root data slab becomes full: `splitRoot` (depth 0 -> 1) -/
 theorem Sl_Array_set_heap_ex_splitRoot :
-    obs3 (TransSl.Array_set (envH 256) 0 (trArr exD (exSt exD)) 3 (some ⟨110, .val 99⟩)) =
+    obs3 (TransSl.Array_set (envH 256) 0 (trArrH exD (exSt exD)) 3 (some ⟨110, .val 99⟩)) =
       exp3 (exD.set 256 3 ⟨110, .val 99⟩ (exSt exD).ctx) := by rfl
 example : (exD.set 256 3 ⟨110, .val 99⟩ (exSt exD).ctx).toOption.map (fun r => r.2.1.d) = some 1 := by rfl
 /-- an oversized value is externalised by `Value.Storable` (a reference is stored; the slab is recorded in `Ctx`) -/
 theorem Sl_Array_set_heap_ex_external :
-    obs3 (TransSl.Array_set (envH 256) 1 (trArr exA (exSt exA)) 0 (some ⟨500, .val 99⟩)) =
+    obs3 (TransSl.Array_set (envH 256) 1 (trArrH exA (exSt exA)) 0 (some ⟨500, .val 99⟩)) =
       exp3 (exA.set 256 0 ⟨500, .val 99⟩ (exSt exA).ctx) := by rfl
 
 /-! ### Insert / Append -/
 
 /-- plain store -/
 theorem Sl_Array_Insert_heap_ex_store :
-    obs2 (TransSl.Array_Insert (envH 256) 1 (trArr exA (exSt exA)) 5 (some ⟨70, .val 99⟩)) =
+    obs2 (TransSl.Array_Insert (envH 256) 1 (trArrH exA (exSt exA)) 5 (some ⟨70, .val 99⟩)) =
       exp2 (exA.insert 256 5 ⟨70, .val 99⟩ (exSt exA).ctx) := by rfl
 /-- the leaf becomes full: `SplitChildSlab` -/
 theorem Sl_Array_Insert_heap_ex_split :
-    obs2 (TransSl.Array_Insert (envH 256) 1 (trArr exB (exSt exB)) 1 (some ⟨100, .val 99⟩)) =
+    obs2 (TransSl.Array_Insert (envH 256) 1 (trArrH exB (exSt exB)) 1 (some ⟨100, .val 99⟩)) =
       exp2 (exB.insert 256 1 ⟨100, .val 99⟩ (exSt exB).ctx) := by rfl
 /-- the append path (`index == count`: the last child, no routing) -/
 theorem Sl_Array_Append_heap_ex :
-    obs2 (TransSl.Array_Append (envH 256) 1 (trArr exA (exSt exA)) (some ⟨70, .val 99⟩)) =
+    obs2 (TransSl.Array_Append (envH 256) 1 (trArrH exA (exSt exA)) (some ⟨70, .val 99⟩)) =
       exp2 (exA.append 256 ⟨70, .val 99⟩ (exSt exA).ctx) := by rfl
 example : (exA.append 256 ⟨70, .val 99⟩ (exSt exA).ctx).toOption.map (fun r => (r.1.count, r.2.eff)) =
     some (9, [.store ⟨1, 4⟩, .store ⟨1, 1⟩]) := by rfl
 /-- a root data slab becomes full: `splitRoot` -/
 theorem Sl_Array_Insert_heap_ex_splitRoot :
-    obs2 (TransSl.Array_Insert (envH 256) 0 (trArr exD (exSt exD)) 2 (some ⟨100, .val 99⟩)) =
+    obs2 (TransSl.Array_Insert (envH 256) 0 (trArrH exD (exSt exD)) 2 (some ⟨100, .val 99⟩)) =
       exp2 (exD.insert 256 2 ⟨100, .val 99⟩ (exSt exD).ctx) := by rfl
 /-- past the end: `IndexOutOfBoundsError`, nothing touched -/
-example : obs2 (TransSl.Array_Insert (envH 256) 1 (trArr exA (exSt exA)) 9 (some ⟨70, .val 99⟩)) =
+example : obs2 (TransSl.Array_Insert (envH 256) 1 (trArrH exA (exSt exA)) 9 (some ⟨70, .val 99⟩)) =
     some (some .indexOutOfBounds, some (trTree 1 exA.root), ⟨5, [], []⟩, exIds.map (heapOf 1 exA.root)) := by rfl
 
 /-! ### remove -/
 
 /-- the leaf underflows, the left sibling lends: rebalance -/
 theorem Sl_Array_remove_heap_ex_rebalance :
-    obs3 (TransSl.Array_remove (envH 256) 1 (trArr exA (exSt exA)) 4) = exp3 (exA.remove 256 4 (exSt exA).ctx) := by rfl
+    obs3 (TransSl.Array_remove (envH 256) 1 (trArrH exA (exSt exA)) 4) = exp3 (exA.remove 256 4 (exSt exA).ctx) := by rfl
 example : (exA.remove 256 4 (exSt exA).ctx).toOption.map (fun r => (r.1, r.2.2.eff)) =
     some (⟨60, .val 10⟩, [.store ⟨1, 3⟩, .store ⟨1, 2⟩, .store ⟨1, 3⟩, .store ⟨1, 1⟩, .store ⟨1, 1⟩]) := by rfl
 /-- no underflow: plain store -/
 theorem Sl_Array_remove_heap_ex_store :
-    obs3 (TransSl.Array_remove (envH 256) 1 (trArr exA (exSt exA)) 0) = exp3 (exA.remove 256 0 (exSt exA).ctx) := by rfl
+    obs3 (TransSl.Array_remove (envH 256) 1 (trArrH exA (exSt exA)) 0) = exp3 (exA.remove 256 0 (exSt exA).ctx) := by rfl
 /-- merge, then the single child is promoted to root (depth 1 -> 0) -/
 theorem Sl_Array_remove_heap_ex_merge_promote :
-    obs3 (TransSl.Array_remove (envH 256) 1 (trArr exC (exSt exC)) 0) = exp3 (exC.remove 256 0 (exSt exC).ctx) := by rfl
+    obs3 (TransSl.Array_remove (envH 256) 1 (trArrH exC (exSt exC)) 0) = exp3 (exC.remove 256 0 (exSt exC).ctx) := by rfl
 example : (exC.remove 256 0 (exSt exC).ctx).toOption.map (fun r => r.2.1.d) = some 0 := by rfl
 
 /-! ### PopIterate -/
